@@ -185,6 +185,31 @@ def run(tier, seed, only=None):
             return model.differs(got, refv, 1e-7), "Stretch %s: real %.9g, documented %.9g" % (ob.id, got, refv)
 
         run_obligations(rep, "Stretch[%s]" % cn, obs, timeout, family=lambda ob: "Stretch: " + ob.meta["family"], fixed=fixed, replay=st_rp)
+        # outside the mesh families the property names: leading and trailing edge at different y (raked tip); posed
+        # separately so that the finding is distinct (DESIGN 3/C13)
+        if cn == cfgs[0][0]:
+            mr = symarray("rk", (nx, ny, 3))
+            refr = rap * mr[nx - 1] + (ONE - rap) * mr[0]
+            curr = (refr[ny - 1, 1] - refr[0, 1]) * (2 if symm else 1)
+            outr = sc.sym1({"span": [curr], "in_mesh": mr})["mesh"]
+            obs = idents("Stretch(current span) no-op on a raked mesh", outr, mr, assume=rap_assume,
+                         meta={"family": "the current span leaves a mesh with chordwise-varying y (raked tip) unchanged"})
+
+            def rk_rp(ob, env, symm=symm, shp=shp, mr=mr):
+                envf = model.FillEnv(env)
+                mv = num_inputs({"m": mr}, envf)["m"]
+                r = float(envf["ref_axis_pos"])
+                rr = r * mv[-1] + (1 - r) * mv[0]
+                spv = (rr[-1, 1] - rr[0, 1]) * (2 if symm else 1)
+                real = SymComp(G, "Stretch", val=1.0, mesh_shape=shp, symmetry=symm, ref_axis_pos=r).real({"span": [spv], "in_mesh": mv})["mesh"]
+                idx = tuple(ob.meta["idx"])
+                return model.differs(real[idx], mv[idx], 1e-7), "Stretch at the current span: mesh%s = %.9g, input mesh %.9g" % (list(idx), real[idx], mv[idx])
+
+            nominal = {}
+            cmv = K.rect_mesh(nx, ny, symm)
+            for idx in np.ndindex(*cmv.shape):
+                nominal["rk[%s]" % ",".join(map(str, idx))] = float(cmv[idx]) + (0.15 * idx[0] if idx[2] == 1 and idx[1] == 0 else 0.0)
+            run_obligations(rep, "Stretch on a raked mesh[%s]" % cn, obs, timeout, family=lambda ob: "Stretch: " + ob.meta["family"], fixed=fixed, replay=rk_rp, nominal=nominal)
         # Rotate (rotate_x=True as GeometryMesh uses it)
         for flat in (True, False):
             mm, ma = sym_mesh(nx, ny, symm, flat=flat)
